@@ -83,8 +83,8 @@ def case(draw, ocr=False):
                 tr["sp"] = "std"
         trs.append(tr)
     return {
-        "trs": trs, "sep": draw(st.sampled_from([", ", "\n", ";\n", "\n\n"])), "tsep": draw(st.sampled_from([" ", "\n", ", "])),
-        "channel": draw(st.sampled_from(["config", "config_long", "kw", "kw_over_config", "master", "master_late", "none", "plain_after_one_off_kw"])),
+        "trs": trs, "sep": draw(st.sampled_from([", ", "\n", ";\n", "\n\n", "\r\n", ";\r\n", "\r\n\r\n"])), "tsep": draw(st.sampled_from([" ", "\n", ", ", "\r\n"])),
+        "channel": draw(st.sampled_from(["config", "config_long", "kw", "kw_over_config", "master", "master_late", "none", "plain_after_one_off_kw", "preprocess_one_kw"])),
         "dns": draw(st.sampled_from("ns")), "dew": draw(st.sampled_from("ew")), "ocr": ocr,
         # an optional parse mode that is conservative on these texts (every Twp/Rge heads 'Sec N: block'): the reading of the Twp/Rges may not depend on it
         "mode": draw(st.sampled_from(MODES)),
@@ -160,6 +160,15 @@ def oracle(c):
             d.parse(default_ns=opp_ns, default_ew=opp_ew)
             d.preprocess(default_ns=opp_ns, commit=True)
             d.parse()
+        elif ch == "preprocess_one_kw":
+            # preprocess() given one of the two defaults as a keyword takes the other one from the configuration
+            d = PLSSDesc(text, config=",".join(x for x in (dns, dew, ocr_cfg) if x), wait_to_parse=True)
+            for kwp in ({"default_ns": dns}, {"default_ew": dew}, {}):
+                pre = d.preprocess(**kwp)
+                if NATURAL.findall(pre) != nat:
+                    fails.append(Failure("preprocess_one_keyword", f"{text!r} [config {dns},{dew}]: preprocess({kwp}) has {NATURAL.findall(pre)}, expected {nat}", text=text, want=nat))
+                    break
+            d.parse()
         elif ch == "master":
             MasterConfig.default_ns, MasterConfig.default_ew = dns, dew
             d = PLSSDesc(text, config=ocr_cfg)
@@ -187,6 +196,11 @@ def oracle(c):
         got_f = find_twprge(text, preprocess=True, ocr_scrub=bool(c["ocr"]), **kw)
         if got_f != nat:
             fails.append(Failure("find_twprge", f"find_twprge({text!r}, preprocess=True, {kw}) = {got_f}, expected {nat}", **ctx))
+        if not c["ocr"]:
+            # digits are digits: asking find_twprge to scrub OCR look-alikes as well changes nothing (and does not lose the defaults)
+            got_o = find_twprge(text, preprocess=True, ocr_scrub=True, **kw)
+            if got_o != nat:
+                fails.append(Failure("find_twprge_ocr_on_plain_digits", f"find_twprge({text!r}, preprocess=True, ocr_scrub=True, {kw}) = {got_o}, expected {nat}", **ctx))
         if not any_missing and not c["ocr"]:
             got_raw = find_twprge(text)
             if got_raw != nat:
@@ -219,6 +233,8 @@ def classes(c):
         if tr.get("zpad") and (len(str(tr["twp"])) < tr["zpad"] or len(str(tr["rge"])) < tr["zpad"]):
             out.add("zero_padded")
         out.add(f"sp={tr['missing']}:{tr['sp']}")
+    if "\r" in c["sep"] + c["tsep"]:
+        out.add("windows_line_ends")
     nums = [(tr["twp"], tr["rge"]) for tr in c["trs"]]
     if len(set(nums)) < len(nums):
         out.add("same_numbers_twice")
@@ -235,7 +251,7 @@ def render(c):
 SUBS = [
     Sub("spellings", oracle, strategy=lambda tier: case(), validate=validate, nontrivial=nontrivial, classes=classes, render=render,
         n={"quick": 1000, "thorough": 15000}, shards={"quick": 8, "thorough": 16},
-        essential=("missing=both", "missing=ns", "missing=ew", "channel=config", "channel=kw", "channel=master", "channel=master_late", "channel=kw_over_config", "channel=plain_after_one_off_kw", "zero_padded", "case=lower", "case=upper", "same_numbers_twice", "mode=segment", "mode=sec_colon_required", "mode=TRS_desc",
+        essential=("missing=both", "missing=ns", "missing=ew", "channel=config", "channel=kw", "channel=master", "channel=master_late", "channel=kw_over_config", "channel=plain_after_one_off_kw", "channel=preprocess_one_kw", "zero_padded", "windows_line_ends", "case=lower", "case=upper", "same_numbers_twice", "mode=segment", "mode=sec_colon_required", "mode=TRS_desc",
                    "number_substring_collision")),
     Sub("ocr", oracle, strategy=lambda tier: case(ocr=True), validate=validate, nontrivial=nontrivial, classes=classes, render=render,
         n={"quick": 500, "thorough": 6000}, shards={"quick": 4, "thorough": 16}),
